@@ -1,5 +1,6 @@
 pub mod c03;
 pub mod c04;
+pub mod c05;
 pub mod c08;
 pub mod c09;
 pub mod c20;
